@@ -383,23 +383,29 @@ func (t *transpiler) charClass(node *ast.CharClassNode) {
 		internalNodes = append(internalNodes, element)
 	}
 	if len(nodesToSplit) > 0 {
-		t.Buffer.WriteString(`(?:[`)
-	} else {
+		t.Buffer.WriteString(`(?:`)
+	}
+	// when every element has to be split there is no bracket expression left,
+	// an empty `[]` would swallow the following `|[^...]` as its content
+	hasBracketExpression := len(internalNodes) > 0 || len(nodesToSplit) == 0
+	if hasBracketExpression {
 		t.Buffer.WriteRune('[')
-	}
-	if node.Negated {
-		t.Buffer.WriteRune('^')
-	}
+		if node.Negated {
+			t.Buffer.WriteRune('^')
+		}
 
-	for _, element := range internalNodes {
-		t.charClassElement(element)
-	}
+		for _, element := range internalNodes {
+			t.charClassElement(element)
+		}
 
-	t.Buffer.WriteRune(']')
+		t.Buffer.WriteRune(']')
+	}
 	t.Mode = topLevelMode
 	if len(nodesToSplit) > 0 {
-		for _, element := range nodesToSplit {
-			t.Buffer.WriteRune('|')
+		for i, element := range nodesToSplit {
+			if i > 0 || hasBracketExpression {
+				t.Buffer.WriteRune('|')
+			}
 			t.charClassElement(element)
 		}
 		t.Buffer.WriteRune(')')
